@@ -402,6 +402,110 @@ fn u32_ntt_component(n: usize) -> (u64, Vec<Found>) {
 
 /// intermediate-state sparsity for the 30-bit NTT (see C11): inputs whose residues modulo the partial factors
 /// X^m - zeta have each half-block zero or dense, forward against the defining sums, inverse back to the input
+/// Scalar arithmetic of the 30-bit field: an alphabet of values at the seams of machine words and of the modulus
+/// against itself, and the alphabet against every 16-bit value and every value within 2^12 of the modulus.
+/// Every result must be the canonical representative of the exact result (a non-canonical one survives a
+/// multiplication but breaks the next negation or subtraction of the transform).
+fn u32_scalar_alphabet() -> Vec<u32> {
+    let p = P30 as u32;
+    let mut a: Vec<u32> = vec![0, 1, 2, 3, 5, 12289, p - 1, p - 2, p - 3, (p - 1) / 2, (p + 1) / 2, (p - 1) / 2 - 1, (p + 1) / 2 + 1];
+    for k in [7u32, 8, 12, 14, 15, 16, 17, 20, 24, 28, 29, 30] {
+        for d in [-1i64, 0, 1] {
+            let v = (1i64 << k) + d;
+            if v >= 0 && (v as u64) < P30 {
+                a.push(v as u32);
+                a.push(p - v as u32 % p);
+            }
+        }
+    }
+    // around sqrt(p) and sqrt(2^32): products just below / above the modulus and the word size
+    let r = (P30 as f64).sqrt() as u32;
+    for d in 0..3u32 {
+        a.push(r - d);
+        a.push(r + 1 + d);
+        a.push(65535 - d);
+    }
+    a.retain(|&v| v < p);
+    a.sort();
+    a.dedup();
+    a
+}
+
+fn u32_scalar_ops() -> (u64, Vec<Found>) {
+    use falcon_rust::verif_hooks as fh;
+    let a = u32_scalar_alphabet();
+    let p = P30;
+    let mut others: Vec<u32> = (0..=65536u32).collect();
+    others.extend((1..=4096u32).map(|d| p as u32 - d));
+    others.extend(a.iter().copied());
+    let res: Vec<(u64, Option<Found>)> = a
+        .par_iter()
+        .map(|&x| {
+            let mut count = 0u64;
+            let mut bad: Option<Found> = None;
+            for &y in &others {
+                for (name, want) in [("mul", x as u64 * y as u64 % p), ("add", (x as u64 + y as u64) % p), ("sub", (x as u64 + p - y as u64) % p), ("rsub", (y as u64 + p - x as u64) % p)] {
+                    count += 1;
+                    if bad.is_some() {
+                        continue;
+                    }
+                    let got = catch(|| match name {
+                        "mul" => fh::u32field_mul(x, y),
+                        "add" => fh::u32field_add(x, y),
+                        "sub" => fh::u32field_sub(x, y),
+                        _ => fh::u32field_sub(y, x),
+                    });
+                    let (l, r) = if name == "rsub" { (y, x) } else { (x, y) };
+                    let op = if name == "rsub" { "sub" } else { name };
+                    match got {
+                        Ok(g) if g as u64 == want => {}
+                        Ok(g) if g as u64 % p == want => {
+                            // same residue class but not the canonical representative: only wrong if the value then
+                            // misbehaves where the reduction uses it (negation by subtraction, balanced lift, product)
+                            let bal = |w: u64| if w > p / 2 { w as i64 - p as i64 } else { w as i64 };
+                            let follow = catch(|| (fh::u32field_sub(0, g) as u64 % p, fh::u32field_balanced(g) as i64, fh::u32field_mul(g, 1) as u64 % p, fh::u32field_add(g, 0) as u64 % p));
+                            let expect = ((p - want) % p, bal(want), want, want);
+                            match follow {
+                                Ok(f) if f == expect => {}
+                                Ok(f) => bad = Some(found(format!("u32-scalar:{}", op), format!("30-bit field: {}({}, {}) = {} is not reduced (canonical: {}) and is then mishandled: (0 - r, balanced(r), r * 1, r + 0) = {:?}, expected {:?}", op, l, r, g, want, f, expect), json!({"kind":"u32scalar"}))),
+                                Err(e) => bad = Some(found(format!("u32-scalar:{}", op), format!("30-bit field: {}({}, {}) = {} is not reduced (canonical: {}) and the next operation on it panics: {}", op, l, r, g, want, e), json!({"kind":"u32scalar"}))),
+                            }
+                        }
+                        Ok(g) => bad = Some(found(format!("u32-scalar:{}", op), format!("30-bit field: {}({}, {}) = {} but the result is {}", op, l, r, g, want), json!({"kind":"u32scalar"}))),
+                        Err(e) => bad = Some(found(format!("u32-scalar:{}:panic", op), format!("30-bit field: {}({}, {}) panicked: {}", op, l, r, e), json!({"kind":"u32scalar"}))),
+                    }
+                }
+            }
+            (count, bad)
+        })
+        .collect();
+    let mut count = 0;
+    let mut out = vec![];
+    for (c, b) in res {
+        count += c;
+        out.extend(b);
+    }
+    // new / balanced_value inside the property's domain (|v| < 2^24 for the inputs; quotients stay below 2^29):
+    // the seams of 8-, 16- and 24-bit values. (Outside it, new(-p) = p and new(i32::MIN) overflows: not claimed.)
+    for v in [0i32, 1, -1, 2, -2, 127, 128, -128, -129, 255, 256, 32767, 32768, -32768, -32769, 65535, 65536, -65535, -65536, -65537, (1 << 24) - 1, 1 << 24, -(1 << 24), -(1 << 24) + 1, (1 << 29) - 1, -(1 << 29) + 1] {
+        count += 1;
+        let want = (v as i64).rem_euclid(p as i64) as u64;
+        match catch(|| fh::u32field_new(v)) {
+            Ok(g) if g as u64 == want => {
+                let bal = if want > p / 2 { want as i64 - p as i64 } else { want as i64 };
+                match catch(|| fh::u32field_balanced(g)) {
+                    Ok(b) if b as i64 == bal => {}
+                    Ok(b) => out.push(found("u32-scalar:balanced", format!("30-bit field: balanced_value({}) = {} but the representative of least magnitude is {}", g, b, bal), json!({"kind":"u32scalar"}))),
+                    Err(e) => out.push(found("u32-scalar:balanced:panic", format!("30-bit field: balanced_value({}) panicked: {}", g, e), json!({"kind":"u32scalar"}))),
+                }
+            }
+            Ok(g) => out.push(found("u32-scalar:new", format!("30-bit field: new({}) = {} but the canonical residue is {}", v, g, want), json!({"kind":"u32scalar"}))),
+            Err(e) => out.push(found("u32-scalar:new:panic", format!("30-bit field: new({}) panicked: {}", v, e), json!({"kind":"u32scalar"}))),
+        }
+    }
+    (count, out)
+}
+
 fn u32_sparsity(n: usize) -> (u64, Vec<Found>) {
     use falcon_rust::verif_hooks as fh;
     let mut out: Vec<Found> = vec![];
@@ -711,6 +815,19 @@ pub fn run(tier: Tier) {
     }
     part.exhaustive = true;
     ctx.add_part(part);
+    {
+        let (c, f) = u32_scalar_ops();
+        let mut part = Part::new("u32_scalar_arithmetic", "scalar mul / add / sub of the 30-bit field: an alphabet of values at the seams (0, 1, 2, 3, 5, q, 2^k and 2^k +- 1 for k in {7,8,12,14,15,16,17,20,24,28,29,30} and their negatives, around sqrt(p), 65533..65535, p-1, p-2, p-3, (p+-1)/2) against every value in [0, 2^16], every value in [p-4096, p) and itself, both operand orders for sub; a result that is not the canonical representative must still negate, lift and multiply correctly; new / balanced_value at the seams of 8-, 16-, 24- and 29-bit values");
+        part.states = c;
+        part.transitions = c;
+        part.validated = c;
+        part.outcome(format!("operations={}", c));
+        for x in f {
+            ctx.violation(x.key, x.what, x.case);
+        }
+        part.exhaustive = true;
+        ctx.add_part(part);
+    }
     ctx.sample(json!({"n":4,"k":"2^12*X^1","meaning":"(F,G) = (F0,G0) + 4096 X (f,g) must reduce back to the same pair as (F0,G0) does"}));
     ctx.assume("at n = 2 ntru_gen does not produce an NTRU quadruple (30-bit field overflow, not a production size); quadruples failing the exact NTRU check are dropped and the structured bases cover that n");
     ctx.finish();
@@ -719,6 +836,9 @@ pub fn run(tier: Tier) {
 pub fn replay(case: &Value) -> Result<Option<String>, String> {
     if case.get("kind").and_then(|k| k.as_str()) == Some("babai-history") {
         return Err("re-run ./vf check C17 (the call histories are enumerated deterministically)".into());
+    }
+    if case.get("kind").and_then(|k| k.as_str()) == Some("u32scalar") {
+        return Ok(u32_scalar_ops().1.into_iter().next().map(|f| f.what));
     }
     if case.get("kind").and_then(|k| k.as_str()) == Some("u32ntt") {
         let n = case.get("n").and_then(|x| x.as_u64()).ok_or("n")? as usize;
